@@ -684,3 +684,13 @@ def write_evidence(mod, tier, base_seed, stats, extra, wall, wall_runs, n_viol, 
     os.makedirs(edir, exist_ok=True)
     with open(os.path.join(edir, f"{mod.PROPERTY}.json"), "w") as f:
         f.write(dumps(ev, indent=1))
+
+
+def vcomps(v):
+    """Component Arrays of a Vector, in x, y, z order, through public attributes (present components only)."""
+    out = []
+    for c in "xyz":
+        a = getattr(v, c, None)
+        if a is not None:
+            out.append(a)
+    return out
